@@ -908,7 +908,7 @@ def main(ctx):
         import esutil.htm.htm as hm
         return [hm]
 
-    object_world(ctx, "several-matchers", list(MK), m_new, MOPS, m_do, m_modules, depth=ctx.pick(3, 4),
+    object_world(ctx, "several-matchers", list(MK), m_new, MOPS, m_do, m_modules, result_edits=True, depth=ctx.pick(3, 4),
                  check=m_check, must_raise=lambda kind, op: op[0] == "bad", nodedup_depth=ctx.pick(3, 4), state=lambda h: (h.M.get_depth(), getattr(h.M, "__dict__", {}), h.ra2, h.dec2))
 
 
